@@ -11,15 +11,20 @@ def generate(rng, tier, shard, nshards):
     n = 40 if tier == "quick" else 400
     for i in range(n):
         srn, kw = [("Sat3", {}), ("Bool", {}), ("RatU", {"contractive": True}), ("Sat2", {}), ("RatU", {"acyclic": True}),
-                   ("Rat", {"acyclic": True}), ("MaxTimes", {"acyclic": True})][i % 7]
+                   ("Rat", {"acyclic": True}), ("MaxTimes", {"acyclic": True}), ("BM2", {})][i % 8]
         A = lops.rand_graph(rng, srn, rng.choice([1, 2, 3, 4, 5]), rng.choice([0, 2, 4, 7, 10]), **kw)
         feat = lops.gfeat(A)
         style = rng.choice(lops.NODE_STYLES)
         base = {"sr": srn, "A": A, "style": style}
+        if i % 2 == 1:       # a history of earlier queries on the same graph object
+            base["pre"] = [rng.choice(lops.GRAPH_PRE) for _ in range(rng.randint(1, 3))]
+            feat = feat + "+history"
         for how in ("scc", "reference", "closure"):
             yield lops.event("closure", dict(base, how=how), site=f"closure[{how}]", feat=feat)
         R = lops.SR[srn]
         ws = [[1, 2], [1, 1]] if srn in ("RatU", "Rat", "MaxTimes") else [1, 1, 2 if srn != "Bool" else 1]
+        if srn == "BM2":
+            ws = [[1, 0, 0, 1], [0, 1, 0, 0], [1, 1, 0, 0], [0, 0, 1, 0]]
         b = [[j, rng.choice(ws)] for j in range(A["n"]) if rng.random() < 0.6]
         for side in ("left", "right"):
             yield lops.event("solve", dict(base, b=b, side=side), site=f"solve_{side}", feat=feat)
